@@ -30,6 +30,12 @@ def heads(t):
     return [t]
 
 
+def is_generic_mut_ref(ty):
+    """`&mut R` for a generic parameter R (whatever it is called): a bare identifier, no path, no type arguments"""
+    import re
+    return bool(re.match(r"^&mut [A-Za-z_]\w*$", ty)) and ty[5:] not in ('u8', 'u16', 'u32', 'u64', 'usize', 'bool', 'str')
+
+
 def finalize_uses_external(ctx, rule):
     """every construction of a transcript RNG on the prover's trace mixes in the caller's RNG (shared: R-C14-1, R-C13-5)"""
     rep = ctx.rep
@@ -37,7 +43,7 @@ def finalize_uses_external(ctx, rule):
     if prover is None:
         return
     evs = wire.entry_trace(ctx, prover)
-    rng_idx = [i for i in range(1, prover.argc + 1) if prover.local_ty(i) == '&mut R']
+    rng_idx = [i for i in range(1, prover.argc + 1) if is_generic_mut_ref(prover.local_ty(i))]
     if not rng_idx:
         rep.anchor_missing(rule, rule + '/params', 'prover has no generic `&mut R` RNG parameter')
         return
@@ -58,7 +64,7 @@ def run(ctx):
     if prover is None:
         return
     evs = wire.entry_trace(ctx, prover)
-    rng_idx = [i for i in range(1, prover.argc + 1) if prover.local_ty(i) == '&mut R']
+    rng_idx = [i for i in range(1, prover.argc + 1) if is_generic_mut_ref(prover.local_ty(i))]
     wit_idx = [i for i in range(1, prover.argc + 1) if 'RangeWitness' in prover.local_ty(i)]
     if not rng_idx or not wit_idx:
         rep.anchor_missing('R-C14-1', 'R-C14-1/params', 'prover has no generic `&mut R` RNG parameter / no witness parameter')
